@@ -7,14 +7,23 @@ pub struct Path;
 static THE_PATH: Path = Path;
 pub struct PathBuf(pub u8);
 impl PartialEq for PathBuf { fn eq(&self, o: &PathBuf) -> bool { self.0 == o.0 } }
-pub struct Meta;
-impl Meta { pub fn ino(&self) -> u64 { 42 } }
+pub struct Meta { pub i: u64 }
+impl Meta { pub fn ino(&self) -> u64 { self.i } }
 impl Path {
     pub fn new(_p: &String) -> &'static Path { &THE_PATH }
-    pub fn metadata(&self) -> Result<Meta, ()> { Ok(Meta) }
+    pub fn metadata(&self) -> Result<Meta, ()> { Ok(Meta { i: 42 }) }
     pub fn to_path_buf(&self) -> PathBuf { PathBuf(7) }
 }
-pub fn symlink_metadata(_p: &Path) -> Result<Meta, ()> { Ok(Meta) }
+pub fn symlink_metadata(_p: &Path) -> Result<Meta, ()> { Ok(Meta { i: 42 }) }
+/// a directory entry: its own inode (lstat) and the inode of what it points to when it is a symlink
+pub struct DirEntry { pub own_ino: u64, pub target_ino: u64 }
+pub struct EntryPath { pub target_ino: u64 }
+impl DirEntry { pub fn ino(&self) -> u64 { self.own_ino } pub fn path(&self) -> EntryPath { EntryPath { target_ino: self.target_ino } } }
+#[derive(Clone, Copy)] pub struct FileType { pub symlink: bool }
+impl FileType { pub fn is_symlink(&self) -> bool { self.symlink } pub fn is_dir(&self) -> bool { !self.symlink } }
+/// std::fs stand-ins that FOLLOW symlinks
+pub mod fs { use super::*; pub fn metadata(p: EntryPath) -> Result<Meta, ()> { Ok(Meta { i: p.target_ino }) } }
+pub mod std { pub use super::fs; }
 pub struct Repo;
 pub struct Repository;
 impl Repository { pub fn discover(_p: &&Path) -> Result<Repo, ()> { Err(()) } }
